@@ -1,4 +1,5 @@
 import Rivaas.Model.ErrFmt
+import Rivaas.Spec.Accept
 /-
 C06 — the oracle, stated on the observed response, independent of how `fail`, `selectFormatter`
 and the formatters are programmed (it shares only the data types with the model).
@@ -61,82 +62,35 @@ def splitOnChar (sep : Char) : Bytes → List Bytes
 /-- the media type of a Content-Type header value: parameters dropped, case-insensitive -/
 def headerMediaType (ct : Bytes) : Bytes := lowerB (trimSp (ct.takeWhile (· != ';')))
 
-/-! ### a small Accept reader (the full Accept model belongs to C19) -/
+/-! ### what the client accepts: the declarative Accept oracle of C19 (`Spec/Accept.lean`, RFC 9110 §12.5.1) -/
 
-structure MRange where
-  typ : Bytes
-  sub : Bytes
-  /-- quality in thousandths -/
-  q : Nat
-  deriving Repr, DecidableEq
+/-- a configured media type without its parameters (`application/json; charset=utf-8`: they take no part) -/
+def mtCore (mt : Bytes) : Bytes := mt.takeWhile (· != ';')
 
-def digitVal (c : Char) : Option Nat := if '0' ≤ c ∧ c ≤ '9' then some (c.toNat - '0'.toNat) else none
-
-/-- `qvalue = ( "0" [ "." 0*3DIGIT ] ) / ( "1" [ "." 0*3("0") ] )`, in thousandths -/
-def parseQ (b : Bytes) : Option Nat :=
-  match b with
-  | ['1'] => some 1000
-  | '1' :: '.' :: ds => if ds.length ≤ 3 && ds.all (· == '0') then some 1000 else none
-  | ['0'] => some 0
-  | '0' :: '.' :: ds =>
-    if ds.length ≤ 3 then
-      match ds.mapM digitVal with
-      | some vs => some ((vs ++ [0, 0, 0]).take 3 |>.foldl (fun acc d => acc * 10 + d) 0)
-      | none => none
-    else none
-  | _ => none
-
-/-- the q parameter among `;`-separated parameters: `none` = malformed, `some 1000` = absent -/
-def qOfParams : List Bytes → Option Nat
-  | [] => some 1000
-  | p :: rest =>
-    match splitOnChar '=' (trimSp p) with
-    | [k, v] => if lowerB (trimSp k) == ['q'] then parseQ (trimSp v) else qOfParams rest
-    | _ => none
-
-def parseRange (part : Bytes) : Option MRange :=
-  match splitOnChar ';' part with
-  | [] => none
-  | mt :: params =>
-    match splitOnChar '/' (lowerB (trimSp mt)) with
-    | [t, s] =>
-      if t.isEmpty || s.isEmpty then none
-      else (qOfParams params).map fun q => { typ := t, sub := s, q := q }
-    | _ => none
-
-/-- `none` = not a well-formed Accept header; an absent or empty header is the empty list -/
-def parseAcceptHdr : Option Bytes → Option (List MRange)
+/-- the ranges an Accept header denotes; `none` = outside the grammar; an absent header states no preference -/
+def parseAcceptHdr : Option Bytes → Option (List AcceptSpec.Range)
   | none => some []
-  | some h => if (trimSp h).isEmpty then some [] else (splitOnChar ',' h).mapM parseRange
+  | some h => AcceptSpec.ranges true h
 
-/-- how specifically range `r` covers media type `mt`: 3 exact, 2 `type/*`, 1 `*/*`, 0 not at all -/
-def rangeSpecificity (r : MRange) (mt : Bytes) : Nat :=
-  -- a configured media type may carry parameters ("application/json; charset=utf-8"): they take no part
-  match splitOnChar '/' (headerMediaType mt) with
-  | [t, s] =>
-    if r.typ == t && r.sub == s then 3
-    else if r.typ == t && r.sub == ['*'] then 2
-    else if r.typ == ['*'] && r.sub == ['*'] then 1
-    else 0
-  | _ => 0
+/-- how specifically a range covers the configured media type `mt` (3 exact, 2 `type/*`, 1 `*/*`, 0 not at all) -/
+def specOf (mt : Bytes) : AcceptSpec.Range → Nat :=
+  match AcceptSpec.mediaOffer (mtCore mt) with
+  | some p => AcceptSpec.mediaSpecificity p
+  | none => fun _ => 0
 
-def rangeMatches (r : MRange) (mt : Bytes) : Bool := rangeSpecificity r mt > 0
+/-- the configured key is a plain media type (`type/subtype`, possibly with parameters after a `;`) -/
+def offerPlain (mt : Bytes) : Bool := (AcceptSpec.mediaOffer (mtCore mt)).isSome
 
-/-- the client accepts media type `mt` (RFC 9110 §12.5.1): the most specific range that covers it has a
-    non-zero quality — `application/json;q=0, */*` does not accept `application/json`. Several ranges of
-    that same specificity: any of them with q > 0 will do (the statement does not say). No Accept header:
-    everything is acceptable. -/
-def clientAccepts (ranges : List MRange) (mt : Bytes) : Bool :=
-  ranges.isEmpty ||
-  (let best := (ranges.map fun r => rangeSpecificity r mt).foldl max 0
-   best > 0 && ranges.any fun r => rangeSpecificity r mt == best && r.q > 0)
+/-- the client accepts media type `mt`: the most specific range that covers it has a non-zero quality —
+    `application/json;q=0, */*` does not accept `application/json`. Several ranges of that same specificity:
+    any of them with q > 0 will do (the statement does not say). No preference stated: everything is acceptable. -/
+def clientAccepts (ranges : List AcceptSpec.Range) (mt : Bytes) : Bool :=
+  ranges.isEmpty || AcceptSpec.qmax (specOf mt) ranges > 0
 
-/-- the most specific ranges covering `mt` disagree (one refuses with q=0, another of the same
-    specificity takes it): the statement does not say which one speaks for the client -/
-def acceptAmbiguous (ranges : List MRange) (mt : Bytes) : Bool :=
-  let best := (ranges.map fun r => rangeSpecificity r mt).foldl max 0
-  best > 0 && (ranges.any fun r => rangeSpecificity r mt == best && r.q > 0) &&
-  (ranges.any fun r => rangeSpecificity r mt == best && r.q == 0)
+/-- the most specific ranges covering `mt` disagree (one refuses with q=0, another of the same specificity takes
+    it): the statement does not say which one speaks for the client -/
+def acceptAmbiguous (ranges : List AcceptSpec.Range) (mt : Bytes) : Bool :=
+  AcceptSpec.qmax (specOf mt) ranges > 0 && AcceptSpec.qmin (specOf mt) ranges == 0
 
 /-! ### which formatter may have been used -/
 
@@ -151,6 +105,8 @@ def negotiated (m : List (Bytes × Fmt)) (dflt : Bytes) (all : List Fmt) (accept
   match parseAcceptHdr accept with
   | none => all
   | some ranges =>
+    -- a key that is no media type, or a client whose most specific ranges disagree: the outcome is left open
+    if m.any (fun kv => !offerPlain kv.1) then all else
     if m.any (fun kv => acceptAmbiguous ranges kv.1) then all else
     let acc := m.filter fun kv => clientAccepts ranges kv.1
     if !acc.isEmpty then acc.map (·.2)
